@@ -75,6 +75,9 @@ def inner_apps(tmpdir):
         return A.StreamResponse(gen())
     pair("stream", w_stream, a_stream)
     pair("file", lambda: W.FileResponse(p, chunk_size=64), lambda: A.FileResponse(p, chunk_size=64))
+    # header bytes >= 0x80: a non-ASCII download name, a Latin-1 header value
+    pair("file_named", lambda: W.FileResponse(p, download_name="résumé.txt"), lambda: A.FileResponse(p, download_name="résumé.txt"))
+    pair("latin1_header", lambda: W.PlainTextResponse("x", 200, {"X-Author": "Zoë ÿ"}), lambda: A.PlainTextResponse("x", 200, {"X-Author": "Zoë ÿ"}))
 
     # raw applications
     def raw_list(environ, start_response):
@@ -107,6 +110,15 @@ def inner_apps(tmpdir):
         await send({"type": "http.response.start", "status": 204, "headers": []})
         await send({"type": "http.response.body", "body": b""})
 
+    def raw_high(environ, start_response):
+        # (PEP 3333: header text is the Latin-1 reading of the bytes on the wire - here UTF-8 bytes and a lone 0xFF)
+        start_response("200 OK", [("X-Author", "Zo\xc3\xab"), ("X-Bin", "\xff\x80")])
+        return [b"x"]
+
+    async def araw_high(scope, receive, send):
+        await send({"type": "http.response.start", "status": 200, "headers": [(b"x-author", b"Zo\xc3\xab"), (b"x-bin", b"\xff\x80")]})
+        await send({"type": "http.response.body", "body": b"x"})
+
     async def araw_dup(scope, receive, send):
         await send({"type": "http.response.start", "status": 200, "headers": [(b"set-cookie", b"a=1"), (b"set-cookie", b"b=2")]})
         await send({"type": "http.response.body", "body": b"x"})
@@ -133,7 +145,8 @@ def inner_apps(tmpdir):
             for kind in ("list", "tuple", "gen"):
                 extra["chunks/%s/%s" % (kind, ",".join(c.decode() or "-" for c in seq))] = chunk_apps(kind, seq)
     raw = {**extra, "raw_list": (raw_list, araw, False), "raw_tuple": (raw_tuple, araw, False), "raw_gen": (raw_gen, araw, False),
-           "raw_empty": (raw_empty, araw_empty, False), "raw_dup_headers": (raw_dup, araw_dup, True)}
+           "raw_empty": (raw_empty, araw_empty, False), "raw_dup_headers": (raw_dup, araw_dup, True),
+           "raw_high_bytes": (raw_high, araw_high, False)}
     return apps, raw
 
 
